@@ -85,7 +85,9 @@ PROPS['C17'] = {
              'pivot at 50; verify_at is nb<=t<=na and trim is intersection; Serial::from_slice/from_str/encode_dec/DER content are exact '
              'in value for all 20-octet serials (decimal and minimal-DER round trips, numeric order). The instant of a civil time is modelled '
              '(Model/Instant.lean: seconds through the proleptic Gregorian calendar = Time::timestamp, compared on every day of the years '
-             '1-9999) and calendar order is proved to be the order of instants (calendar_order_is_instant_order, validity_iff_calendar). '
+             '1-9999) and calendar order is proved to be the order of instants (calendar_order_is_instant_order, validity_iff_calendar); '
+             'Time::years_from_date is modelled and always names a real calendar time (years_from_date_spec; op yfd); Validity::from_secs / '
+             'from_duration are checked against the wall clock by an oracle (fromsecs). '
              'Partial: calendar validity (= chrono\'s ymd_opt/and_hms_opt) is modelled by validCivil and validated by the every-day sweep.',
     'note': 'chrono calendar validity modelled by validCivil; u32::from_str modelled by rustU32; bcder Unsigned head check modelled by '
             'decodeSerialContent; all three are exercised differentially. Pivot, year window and the digit check are regenerated from '
